@@ -3,6 +3,6 @@ CONSTANTS
   NumRetries = {9, 10}
   Defects = {}
 SPECIFICATION Spec
-INVARIANTS ActionsAppliedOnce AttemptsBounded FreshHost RetryMade ReplyIsLast EmitCase
+INVARIANTS WithinGlobalTimeout ActionsAppliedOnce AttemptsBounded FreshHost RetryMade ReplyIsLast EmitCase
 PROPERTY RetryOnlyIfConfigured
 CHECK_DEADLOCK FALSE
